@@ -1,4 +1,252 @@
+import IpcHub.Drv.Util
+import IpcHub.Model.RtspSessionInst
+import IpcHub.Spec.RtspAutomaton
+/-
+C12 driver ops (one output line per input line):
+
+  pt <z|n> { <0|2> <ts-hex> }+
+      ParseTransport applied in sequence to the zero value (z) or to newSession's transport (n)
+  run <tcp|ws|wsp> <wsPath-hex> sdp <n> { <ok> <nm> { <v|a|o> <ctrl-hex> } } st <n> { <path-hex> <sdpId> <mc> [ip-hex portBase src-hex ttl] }
+      un <n> { <ctrl-hex> <norm-hex|!> } in <n> { R <METHOD> <cseq> <path> <setupPath> <transport> <ctype> <range> <body> <udpok> | H }
+      the model's prediction: per input `responses;consumers published closed`, joined by " | ",
+      then " || ch=<channels> role=<role> paused=<b>" of the final state
+  judge <rtsp|wsp> { <hangup> <METHOD> <transport-hex> <nresp> <code> <cseqOk> <sidOk> <consumers> <published> <closed> }*
+      the specification's verdict on an observed dialogue
+-/
 namespace IpcHub.Drv.C12
-/-- placeholder: no model built for this property yet -/
-def handle (_ : List String) : String := "bad-op"
+open IpcHub.Rtsp IpcHub.RtspSpec IpcHub.Drv
+
+abbrev P := StateT (List String) Option
+
+def tok : P String := fun s => match s with
+  | [] => none
+  | t :: r => some (t, r)
+
+def expect (w : String) : P Unit := do
+  let t ← tok
+  if t == w then pure () else failure
+
+def pNat : P Nat := do
+  let t ← tok
+  match t.toNat? with
+  | some n => pure n
+  | none => failure
+
+def pBool : P Bool := do
+  let t ← tok
+  pure (t == "1")
+
+def pStr : P Str := do
+  let t ← tok
+  match hexToChars t with
+  | some s => pure s
+  | none => failure
+
+def pRepeat {α} (p : P α) : Nat → P (List α)
+  | 0 => pure []
+  | n + 1 => do
+    let a ← p
+    let r ← pRepeat p n
+    pure (a :: r)
+
+def methodOfToken (t : String) : Method :=
+  match IpcHub.Gen.methodTokens.find? (fun p => p.2 == t) with
+  | some (n, _) => methodOfName n
+  | none => .other
+
+def qStr (q : Quad) : String := s!"{q.c0},{q.c1},{q.c2},{q.c3}"
+
+def modeNum : Mode → Nat
+  | .unknown => 0 | .play => 1 | .record => 2
+def typeNum : TType → Nat
+  | .unknown => 0 | .tcp => 1 | .udp => 2 | .multicast => 3
+
+def pTrack : P Track := do
+  let t ← tok
+  if t == "0" then pure .video else if t == "2" then pure .audio else failure
+
+partial def ptLoop (t : Transport) (errs : String) : List String → Option (Transport × String)
+  | [] => some (t, errs)
+  | rt :: ts :: rest =>
+    match (if rt == "0" then some Track.video else if rt == "2" then some Track.audio else none), hexToChars ts with
+    | some track, some s =>
+      let (t', e) := parseTransport t track s
+      ptLoop t' (errs ++ boolStr e) rest
+    | _, _ => none
+  | _ => none
+
+def handlePt (init : String) (rest : List String) : String :=
+  let t0 := if init == "z" then Transport.zero else Transport.init
+  match ptLoop t0 "" rest with
+  | none => "bad-op"
+  | some (t, errs) =>
+    s!"err={errs} mode={modeNum t.mode} append={boolStr t.append} type={typeNum t.type} ch={qStr t.channels} cp={qStr t.clientPorts} sp={qStr t.serverPorts} ports={qStr t.ports} ip={charsToHex t.multicastIP} ttl={t.ttl} src={charsToHex t.source}"
+
+/-! ### run -/
+
+def pMedia : P (MediaKind × Str) := do
+  let k ← tok
+  let c ← pStr
+  pure ((if k == "v" then .video else if k == "a" then .audio else .other), c)
+
+def pSdp : P SdpInfo := do
+  let ok ← pBool
+  let n ← pNat
+  let ms ← pRepeat pMedia n
+  pure { ok := ok, medias := ms }
+
+def pStream : P (Str × StreamInfo) := do
+  let p ← pStr
+  let id ← pNat
+  let mc ← pBool
+  if mc then
+    let ip ← pStr
+    let pb ← pNat
+    let src ← pStr
+    let ttl ← pNat
+    pure (p, { sdp := id, mc := some { ip := ip, portBase := pb, src := src, ttl := ttl } })
+  else pure (p, { sdp := id, mc := none })
+
+def pNorm : P (Str × Option Str) := do
+  let c ← pStr
+  let t ← tok
+  if t == "!" then pure (c, none)
+  else match hexToChars t with
+    | some s => pure (c, some s)
+    | none => failure
+
+structure Tables where
+  sdps : List SdpInfo
+  streams : List (Str × StreamInfo)
+  norms : List (Str × Option Str)
+
+def Tables.env (tb : Tables) (udpOk : Bool) : Env :=
+  { lookup := fun p => (tb.streams.find? (fun x => x.1 == p)).map (·.2),
+    sdp := fun id => if id == 0 then { ok := false, medias := [] } else (tb.sdps[id - 1]?).getD { ok := false, medias := [] },
+    urlNorm := fun c => match tb.norms.find? (fun x => x.1 == c) with
+      | some (_, r) => r
+      | none => none,
+    permPull := true, permPush := true, udpOk := udpOk }
+
+def pInput (tb : Tables) : P Input := do
+  let t ← tok
+  if t == "H" then pure .hangup
+  else if t == "R" then
+    let m ← tok
+    let cseq ← pStr
+    let path ← pStr
+    let sp ← pStr
+    let tr ← pStr
+    let ct ← pBool
+    let rg ← pStr
+    let body ← pNat
+    let udp ← pBool
+    pure (.req { method := methodOfToken m, cseq := cseq, path := path, setupPath := sp, transport := tr,
+                 ctypeSdp := ct, range := rg, body := body } (tb.env udp))
+  else failure
+
+def reasonStr : Reason → String
+  | .dflt => "-" | .invalidVControl => "vctl" | .invalidAControl => "actl" | .unknownControl => "unkctl"
+  | .malformedTransport => "malformed" | .cantSetupAsRecord => "asrecord" | .cantSetupAsPlay => "asplay"
+  | .recordOnlyTcp => "recordtcp" | .wsOnlyTcp => "wstcp"
+
+def optHex : Option Str → String
+  | none => "~"
+  | some s => charsToHex s
+
+def respStr (r : Resp) : String :=
+  let sdp := match r.sdp with
+    | none => "~"
+    | some n => toString n
+  s!"{r.code}:{reasonStr r.reason}:{charsToHex r.cseq}:{optHex r.transport}:{sdp}:{optHex r.range}:{boolStr r.isPublic}"
+
+def respsOf (evs : List Ev) : List Resp :=
+  evs.filterMap (fun e => match e with
+    | .resp r => some r
+    | .eff _ => none)
+
+def segStr (evs : List Ev) (cons : Nat) (pub closed : Bool) : String :=
+  let rs := String.intercalate "," ((respsOf evs).map respStr)
+  s!"{if rs.isEmpty then "none" else rs};{cons} {boolStr pub} {boolStr closed}"
+
+def roleStr : Role → String
+  | .none => "none" | .tcp => "tcp" | .udp => "udp" | .mc => "mc"
+
+def runRtsp (s : Sess) : List Input → List String × String
+  | [] => ([], s!"ch={qStr s.tr.channels} role={roleStr s.role} paused=0")
+  | i :: is =>
+    let (s', evs) := stepInput genCfg s i
+    let (segs, fin) := runRtsp s' is
+    (segStr evs (if s'.role != .none then 1 else 0) s'.pusher s'.closed :: segs, fin)
+
+def runWsp (s : WSess) : List Input → List String × String
+  | [] => ([], s!"ch={qStr s.tr.channels} role={if s.attached then "tcp" else "none"} paused={boolStr s.paused}")
+  | i :: is =>
+    let (s', evs) := wstepInput genWspGate s i
+    let (segs, fin) := runWsp s' is
+    (segStr evs (if s'.attached then 1 else 0) false s'.closed :: segs, fin)
+
+def pRun : P String := do
+  let flav ← tok
+  let wsPath ← pStr
+  expect "sdp"
+  let n ← pNat
+  let sdps ← pRepeat pSdp n
+  expect "st"
+  let n ← pNat
+  let sts ← pRepeat pStream n
+  expect "un"
+  let n ← pNat
+  let norms ← pRepeat pNorm n
+  expect "in"
+  let n ← pNat
+  let tb : Tables := { sdps := sdps, streams := sts, norms := norms }
+  let ins ← pRepeat (pInput tb) n
+  let (segs, fin) :=
+    if flav == "wsp" then runWsp (WSess.init wsPath) ins
+    else runRtsp (Sess.init (flav == "ws") wsPath) ins
+  pure (String.intercalate " | " segs ++ " || " ++ fin)
+
+/-! ### judge -/
+
+def pObs : P Obs := do
+  let h ← pBool
+  let m ← tok
+  let tr ← pStr
+  let n ← pNat
+  let code ← pNat
+  let c ← pBool
+  let sid ← pBool
+  let cons ← pNat
+  let pub ← pBool
+  let cl ← pBool
+  pure { hangup := h, method := methodOfToken m, ask := specSetupAsk tr, nresp := n, code := code, cseqOk := c,
+         sidOk := sid, consumers := cons, published := pub, closed := cl }
+
+partial def pMany {α} (p : P α) : P (List α) := fun s =>
+  match s with
+  | [] => some ([], [])
+  | _ => match p s with
+    | none => none
+    | some (a, r) => match pMany p r with
+      | none => none
+      | some (as, r') => some (a :: as, r')
+
+def handle : List String → String
+  | "pt" :: init :: rest => handlePt init rest
+  | "run" :: rest =>
+    match pRun rest with
+    | some (out, []) => out
+    | _ => "bad-op"
+  | "judge" :: flav :: rest =>
+    match pMany pObs rest with
+    | some (os, _) =>
+      let f : Flavour := if flav == "wsp" then .wsp else .rtsp
+      let at_ := match badIndex f MState.init os 0 with
+        | some i => toString i
+        | none => "-"
+      "verdict=" ++ verdict f os ++ " at=" ++ at_
+    | none => "bad-op"
+  | _ => "bad-op"
+
 end IpcHub.Drv.C12
